@@ -10,7 +10,7 @@ import copy
 import numpy as np
 
 from ..core import violation, Discard
-from ..gen_scenes import gen_chain_scene, gen_contact_scene, add_knife_edge, rotate_contact_scene, gen_arm_on_floor_scene
+from ..gen_scenes import gen_chain_scene, gen_contact_scene, add_knife_edge, rotate_contact_scene, gen_arm_on_floor_scene, gen_bar_on_supports_scene
 from .. import rot
 from ..scenes import build
 from ..seams import Sim
@@ -59,7 +59,11 @@ def gen(rng, tier, index):
     fam = ["chain", "contact", "chain", "contact", "chain_actuated"][index % 5]
     if fam == "chain_actuated" and (index // 5) % 2 == 1:
         fam = "arm_on_floor"
-    if fam == "arm_on_floor":
+    if fam == "contact" and (index // 5) % 3 == 2:
+        fam = "bar_on_supports"
+    if fam == "bar_on_supports":
+        scene = gen_bar_on_supports_scene(rng)
+    elif fam == "arm_on_floor":
         scene = gen_arm_on_floor_scene(rng)
     elif fam == "contact":
         scene = gen_contact_scene(rng, nspheres=int(rng.integers(1, 4)))
@@ -73,13 +77,13 @@ def gen(rng, tier, index):
     mode = str(rng.choice(["initial", "reached"]))
     k = int(rng.integers(3, 40))
     dt = float(10 ** rng.uniform(-3, -2.2))
-    solver = gen_solver(rng, "Rattle", k, dt, tight=True, buggify=False, contacts=(fam in ("contact", "arm_on_floor")))
+    solver = gen_solver(rng, "Rattle", k, dt, tight=True, buggify=False, contacts=(fam in ("contact", "arm_on_floor", "bar_on_supports")))
     corrupt = None
     if rng.random() < 0.5:
-        kinds = ["pen", "approach", "vel"] if fam in ("contact", "arm_on_floor") else ["vel", "pos", "pos_point"]
+        kinds = ["pen", "approach", "vel"] if fam in ("contact", "arm_on_floor", "bar_on_supports") else ["vel", "pos", "pos_point"]
         corrupt = {"kind": str(rng.choice(kinds)), "pick": int(rng.integers(100)), "dir": rng.normal(size=3).tolist(), "size": float(10 ** rng.uniform(-4, -1))}
     plan = {"scene": scene, "family": fam, "mode": mode, "solver": solver, "corrupt": corrupt, "via": str(rng.choice(["build", "set_new_initial_state"]))}
-    if fam in ("contact", "arm_on_floor") and rng.random() < 0.5:
+    if fam in ("contact", "arm_on_floor", "bar_on_supports") and rng.random() < 0.5:
         # fault F2 at the initial-condition fixed point: forced (hook) or organic (tiny iteration budget), with the
         # legal option continue_with_unconverged on or off
         plan["ic_fault"] = {"how": str(rng.choice(["forced", "budget"])), "continue": bool(rng.random() < 0.6), "max_iter": int(rng.integers(1, 4))}
@@ -88,7 +92,7 @@ def gen(rng, tier, index):
         rotate_contact_scene(scene, rot.rand_quat(rng), rng.uniform(-1, 1, 3))
     if rng.random() < 0.3:
         scene["t0"] = float(np.round(rng.uniform(-3.0, 8.0), 3))  # the time origin is arbitrary
-    if fam not in ("contact", "arm_on_floor"):
+    if fam not in ("contact", "arm_on_floor", "bar_on_supports"):
         add_knife_edge(rng, scene, prob=0.3)  # velocity-level constraint: gamma_dot(u_dot0) = 0 and W_gamma la_gamma0 in the monitor
     return plan
 
@@ -132,6 +136,8 @@ def monitor_ic(B, out, tag):
             bad("eom_residual", "compliance", f"|c(q0,u0,la_c0)| = {np.max(np.abs(cv)):.3e}")
             return False
         out["probes"]["compliance_present"] += 1
+    if s.nla_N >= 2 and len({id(getattr(c, "subsystem", None)) for c in B.contacts}) < len(B.contacts) and int(np.sum(np.abs(s.g_N(t, q)) <= 1e-8)) >= 2:
+        out["probes"]["several_closed_contacts_on_one_body"] += 1
     if s.nla_tau:
         out["probes"]["actuator_present"] += 1
         if s.nla_N and np.any(np.abs(s.g_N(t, q)) <= 1e-8):
